@@ -99,12 +99,13 @@ CHECKS = {
         text='Model of internal/json on JSON trees (Impl/PolicyJson.v: MarshalJSON, UnmarshalJSON + ToNode, scopes, policies; values via Impl/ValueJson.v). '
              'Theorems (Properties/C09.v): decoding the encoding yields the identical tree up to the normal form the format imposes (decimal / ip literals as '
              'calls, record entries and annotations as key-sorted maps, empty pattern as one empty literal); whole policies; the normal form is idempotent, '
-             'a second trip is the identity, and it preserves evaluation. Correspondence: Policy.MarshalJSON tree = model tree; Policy.UnmarshalJSON = model on '
+             'a second trip is the identity, and it preserves evaluation; policy sets keep their ids (C09_policy_set_ids_preserved); the normal forms of the text and the '
+             'JSON codec commute, so text->JSON->text and JSON->text->JSON reach one common normal form, and every encoding of a policy evaluates to the same outcome '
+             '(C09_all_encodings_same_outcome). Correspondence: Policy.MarshalJSON / PolicySet.MarshalJSON tree = model tree; Policy.UnmarshalJSON / PolicySet.UnmarshalJSON = model on '
              'encoder outputs and structure-aware mutants (objects with repeated keys, multi-member expression objects and case-folded keys are outside the '
              'modelled domain and are not compared). Direct oracle on the Go code: AST identity, byte stability, ids, commutation with the text codec.',
-        note=TB + 'Modelled, not verified: encoding/json (bytes <-> tree, struct decoding rules for exact-case keys). Policy sets and the text<->JSON commutation are '
-                  'decided by the direct oracle only.',
-        technique='Coq proof of the JSON-tree codec round trip + tree-level differential correspondence + Go round-trip oracle'),
+        note=TB + 'Modelled, not verified: encoding/json (bytes <-> tree, struct decoding rules for exact-case keys). The ip-printing hypotheses are discharged for the modelled printer (Proofs/IPProofs.v).',
+        technique='Coq proofs (JSON-tree codec round trip, policy sets, commutation with the text codec, same meaning) + tree-level differential correspondence + Go round-trip oracle'),
     'C10': dict(
         level='exploration', design='§0.2, §6 C10',
         text='Runtime property (no panic, no stack overflow, no endless loop): explored in a guarded child process with timeouts: structure-aware mutants of every '
